@@ -22,6 +22,7 @@ import rpylib.model.levymodel.mixed.hem as HEM
 import rpylib.model.levymodel.mixed.merton as MER
 import rpylib.model.levymodel.purejump.variancegamma as VG
 import rpylib.tools.integral as TI
+import rpylib.model.levymodel.purejump.cgmy as CGMY
 
 PID = "C09"
 INF = math.inf
@@ -31,6 +32,8 @@ class _Special:
     erf = staticmethod(AD.erf)
     exp1 = staticmethod(AD.exp1)
     gamma = staticmethod(AD.gamma)
+    gammaincc = staticmethod(AD.gammaincc)
+    gammainc = staticmethod(AD.gammainc)
 
     def __getattr__(self, n):
         import scipy.special
@@ -72,6 +75,8 @@ shims.install_np(LM, HEM, MER, VG, TI)
 shims.install(TI, scipy=_ScipyTI())
 shims.install(MER, scipy=_Scipy())
 shims.install(VG, spp=_Special())
+shims.install_np(CGMY)
+shims.install(CGMY, scipy=_Scipy(), sp=_Scipy())
 
 
 def make_measure(ctx, model):
@@ -93,10 +98,29 @@ def make_measure(ctx, model):
         prm = VG.VGParameters.__new__(VG.VGParameters)
         prm.__dict__.update({"sigma": 0.1, "nu": 1.0, "theta": 0.0, "_c": c, "_lambda_m": lm, "_lambda_p": lp})
         return VG._VGLevyMeasure(prm)
+    if model.startswith("CGMY"):
+        # CGMY.<branch>: the activity index y is symbolic inside the branch (or the concrete special value)
+        c, g, m = ctx.real("c"), ctx.real("g"), ctx.real("m")
+        ctx.assume(AND(c > 0, g > 0, m > 0))
+        branch = model.split(".")[1]
+        if branch == "y0":
+            y = 0.0
+        elif branch == "y1":
+            y = 1.0
+        else:
+            # one exactly representable value per branch of the activity index (a symbolic y makes every power a two-argument
+            # uninterpreted function and the queries do not terminate): y in {-1/2, 1/2, 3/2}
+            y = {"neg": -0.5, "01": 0.5, "12": 1.5}[branch]
+        prm = CGMY.CGMYParameters.__new__(CGMY.CGMYParameters)
+        prm.__dict__.update({"c": c, "g": g, "m": m, "y": y})
+        return CGMY._CGMYLevyMeasure(prm)
     raise ValueError(model)
 
 
 def concrete_measure(model, params=None):
+    if model.startswith("CGMY"):
+        y = {"neg": -0.5, "01": 0.5, "12": 1.5, "y0": 0.0, "y1": 1.0}[model.split(".")[1]]
+        return CGMY._CGMYLevyMeasure(CGMY.CGMYParameters(c=0.5, g=5.0, m=6.0, y=y))
     if params:
         try:
             if model == "HEM":
@@ -212,9 +236,9 @@ def h_moment(ctx, model, n, kind, via_xn=False, attempt=False):
         b2 = ctx.real("b2")
         ctx.assume(b2 > a)
         ctx.prove(f"{tag}.additive_with_infinite_end", EQ_RATIONAL(F(a, b2) + F(b2, INF), F(a, INF)), info=info, replay=rp)
-    if kind == "str":
+    if kind == "str" and not (model.startswith("CGMY") and n == 2):  # CGMY second moment: only the straddling closed form; one-sided pieces are quad
         ctx.prove(f"{tag}.straddling_is_sum_of_the_two_sides", EQ_RATIONAL(F(a, b), F(a, 0.0) + F(0.0, b)), info=info, replay=rp)
-    if n == 0 and kind in ("neg", "pos") and not via_xn:
+    if n == 0 and kind in ("neg", "pos") and not via_xn and not model.startswith("CGMY"):
         ctx.prove("C09.mass_nonneg", F(a, b) >= 0, info=info, replay=rp)
 
 
@@ -298,6 +322,11 @@ def harnesses(tier):
                 continue
             for kind in ("neg0", "pos0"):
                 hs.append(Harness(f"{model}.n{n}.{kind}", h_moment, {"model": model, "n": n, "kind": kind}, max_paths=400, timeout_ms=40000))
+    # CGMY at the two special activity indices (closed forms in E1 / incomplete gamma with integer shape); other y: see bounds
+    for br in ("y0", "y1"):
+        for n, kinds in ((0, ("pos", "neg", "neginf", "posinf")), (1, ("pos", "neg", "neginf", "posinf", "str", "neg0", "pos0")), (2, ("str",))):
+            for kind in kinds:
+                hs.append(Harness(f"CGMY.{br}.n{n}.{kind}", h_moment, {"model": f"CGMY.{br}", "n": n, "kind": kind}, max_paths=400, timeout_ms=40000))
     for model in ("HEM", "VG"):
         for n in (0, 1, 2):
             if model == "VG" and n == 0:
@@ -317,7 +346,10 @@ ATTEMPTED = ["C09.attempted." + s for s in ("derivative_in_upper_end_is_integran
 def main(tier):
     bounds = {"models": "HEM, Merton, Variance-Gamma: every parameter value (symbolic), n = 0, 1, 2 (dedicated functions), VG n <= 4 (quick) / 7 (thorough) through integrate_against_xn (one side, infinite ends, straddling, intervals ending exactly at 0)",
               "intervals": "negative side, positive side, straddling zero (where finite), infinite ends; truncation bounds anywhere",
-              "outside": "CGMY (incomplete gamma / exponential integral with parameter-dependent branches) and every generic quadrature fallback (scipy.integrate.quad is C code); "
+              "CGMY": "activity index y = 0 and y = 1 (every c, g, m): mass and first moment on one-sided, infinite, straddling and zero-ended intervals, second moment over "
+                      "straddling intervals (closed form)",
+              "outside": "CGMY for other activity indices (powers with fractional / symbolic exponents: the queries do not terminate) and every generic quadrature fallback "
+                         "(scipy.integrate.quad is C code); "
                          "n >= 3 for HEM / Merton (fallback to quad); signs of odd moments"}
     return run_check(PID, tier, harnesses(tier), expect=EXPECT, attempted=ATTEMPTED, bounds=bounds,
                      assumptions=COMMON_ASSUMPTIONS + ["derivative rules of exp, erf, E1 (symx/ad.py DERIVATIVE_RULES); exp / sqrt axioms; pi as a constant in (3.14159, 3.1416)",
